@@ -143,7 +143,7 @@ func H_C07_BeaconRecord() {
 	rt.Assert("C09.record-unknown-id-rejected", rt.Implies(rt.And(!onMain, !onForeign), err != nil))
 	if err != nil {
 		rt.Reach("record-rejected")
-		rt.Assert("C07.rejected-changes-nothing", be.MS.SameAs(snap))
+		rt.Assert("C07+C09+C13+C14.rejected-changes-nothing", be.MS.SameAs(snap))
 		return
 	}
 	if !onMain {
@@ -163,7 +163,7 @@ func H_C07_BeaconRecord() {
 		} else {
 			rt.Assert("C07.old-record-kept", found)
 		}
-		rt.Assert("C07.old-record-unchanged", rt.Implies(found, ts == pre.T[i]))
+		rt.Assert("C07+C18.old-record-unchanged", rt.Implies(found, ts == pre.T[i]))
 	}
 	if pruned {
 		rt.Reach("record-pruned")
@@ -171,7 +171,7 @@ func H_C07_BeaconRecord() {
 		rt.Reach("record-not-pruned")
 	}
 	nt, found := be.K.GetBeaconTimestampByID(be.Ctx, pre.ID, newID)
-	rt.Assert("C07.new-record-exact", rt.And(found, nt == beacontypes.BeaconTimestamp{TimestampId: newID, SubmitTime: msg.SubmitTime, Hash: msg.Hash}))
+	rt.Assert("C07+C09.new-record-exact", rt.And(found, nt == beacontypes.BeaconTimestamp{TimestampId: newID, SubmitTime: msg.SubmitTime, Hash: msg.Hash}))
 	b, _ := be.K.GetBeacon(be.Ctx, pre.ID)
 	all := be.K.GetAllBeaconTimestamps(be.Ctx, pre.ID)
 	rt.Assert("C08.num-matches-store", b.NumInState == uint64(len(all)))
@@ -190,7 +190,7 @@ func H_C07_BeaconRecord() {
 	rt.Assert("C08.limit-unchanged-by-record", rt.And(fl, l.InStateLimit == pre.L))
 	hi, _ := be.K.GetHighestBeaconID(be.Ctx)
 	rt.Assert("C09.highest-unchanged", hi == pre.Highest)
-	rt.Assert("C07.foreign-untouched", beaconForeignUntouched(be, pre))
+	rt.Assert("C07+C09+C18.foreign-untouched", beaconForeignUntouched(be, pre))
 	rt.Assert("C16.params-untouched", be.K.GetParams(be.Ctx) == be.Params)
 }
 
@@ -218,7 +218,7 @@ func H_C08_BeaconPurchase() {
 	rt.Assert("C13.purchase-only-owner", rt.Implies(err == nil, rt.Or(rt.And(onMain, signer == 0), rt.And(onForeign, signer == 1))))
 	if err != nil {
 		rt.Reach("purchase-rejected")
-		rt.Assert("C08.rejected-changes-nothing", be.MS.SameAs(snap))
+		rt.Assert("C08+C09+C13+C14.rejected-changes-nothing", be.MS.SameAs(snap))
 		return
 	}
 	if !onMain {
@@ -235,10 +235,10 @@ func H_C08_BeaconPurchase() {
 	rt.Assert("C08.response", rt.And(res.BeaconId == pre.ID, res.NumberPurchased == msg.Number))
 	b, _ := be.K.GetBeacon(be.Ctx, pre.ID)
 	rt.Assert("C09.purchase-leaves-beacon", b == pre.B)
-	rt.Assert("C07.foreign-untouched", beaconForeignUntouched(be, pre))
+	rt.Assert("C07+C09+C18.foreign-untouched", beaconForeignUntouched(be, pre))
 	for i := 0; i < pre.N; i++ {
 		ts, found := be.K.GetBeaconTimestampByID(be.Ctx, pre.ID, pre.First+uint64(i))
-		rt.Assert("C07.old-record-unchanged", rt.And(found, ts == pre.T[i]))
+		rt.Assert("C07+C18.old-record-unchanged", rt.And(found, ts == pre.T[i]))
 	}
 }
 
@@ -278,10 +278,10 @@ func H_C09_BeaconRegister() {
 	rt.Assert("C09.existing-untouched", old == pre.B)
 	ol, _ := be.K.GetBeaconStorageLimit(be.Ctx, pre.ID)
 	rt.Assert("C08.existing-limit-untouched", ol.InStateLimit == pre.L)
-	rt.Assert("C07.foreign-untouched", beaconForeignUntouched(be, pre))
+	rt.Assert("C07+C09+C18.foreign-untouched", beaconForeignUntouched(be, pre))
 	for i := 0; i < pre.N; i++ {
 		ts, f := be.K.GetBeaconTimestampByID(be.Ctx, pre.ID, pre.First+uint64(i))
-		rt.Assert("C07.old-record-unchanged", rt.And(f, ts == pre.T[i]))
+		rt.Assert("C07+C18.old-record-unchanged", rt.And(f, ts == pre.T[i]))
 	}
 }
 
